@@ -11,7 +11,7 @@ import random
 from . import common as C, progrun as R
 
 PROP = "C11"
-MODULES = ["RuschmProofs.C11", "RuschmProofs.C11Errors", "RuschmProofs.C11More"]
+MODULES = ["RuschmProofs.C11", "RuschmProofs.C11Errors", "RuschmProofs.C11More", "RuschmProofs.C11Apply"]
 
 
 class Imp:      # improper tail marker
